@@ -44,6 +44,24 @@ def compare(oracle, mod, inst):
     """returns None if the real solver agrees with the oracle, else a dict describing the mismatch"""
     if hasattr(oracle, "ambiguous") and oracle.ambiguous(inst):
         return None
+    if "_witness" in inst:
+        # a board too large for the brute-force oracle, derived from a known rule-obeying answer (checked by the oracle's
+        # own rule checker): the solver must report a solution, and no decided cell may contradict the witness
+        wit = inst["_witness"]
+        clean = {k: v for k, v in inst.items() if k != "_witness"}
+        if not oracle.obeys(clean, wit):
+            raise AssertionError("witness does not obey the rules: %s" % json.dumps(clean)[:200])
+        try:
+            is_sat, got = oracle.run_real(mod, clean)
+        except Exception as e:
+            return dict(kind="exception:%s" % type(e).__name__, detail="%s: %s" % (type(e).__name__, e), expected_sat=True)
+        if not is_sat:
+            return dict(kind="sat-mismatch", detail="solver says no solution, but a rule-obeying grid exists (witness)",
+                        example_solution={str(k): v for k, v in wit.items()})
+        bad = [(str(k), v, wit[str(k)]) for k, v in got.items() if v is not None and str(k) in wit and v != wit[str(k)]]
+        if bad:
+            return dict(kind="decided-cells", detail="cells decided against a rule-obeying grid (key, solver, witness): %s" % bad[:6])
+        return None
     try:
         is_sat, got = oracle.run_real(mod, inst)
     except Exception as e:
@@ -350,6 +368,8 @@ def run(rep, tier, seed, nproc=16):
         k = max(1, min(len(insts), 8))
         for i in range(k):
             tasks.append((name, insts[i::k]))
+        if hasattr(oracle, "witness_instances"):
+            tasks.append((name, list(oracle.witness_instances(tier))))
         hs = _history_sample(insts, 6 if tier == "quick" else 40)
         if hs:
             tasks.append((name, [], hs))
